@@ -380,7 +380,8 @@ func (x *run) execStep(s *sim.Step) {
 	if err == nil {
 		x.res.StepsOK++
 	}
-	x.w.Log.Add("outcome %v", err)
+	x.w.Log.Add("outcome ok=%v", err == nil)
+	x.w.Log.Note("outcome %v", err)
 	if rs.alive && rs.r.Raw != nil {
 		post := x.observe(rs)
 		x.afterStep(rs, s, pre, post, err)
@@ -565,7 +566,8 @@ func (x *run) stepEdit(rs *repState, s *sim.Step) error {
 		sim.SetRandStep(uint64(sub.Id))
 		opid, err := x.applySub(rs, &h, id, sub)
 		if err != nil {
-			x.w.Log.Add("sub %s -> %v", sub.K, err)
+			x.w.Log.Add("sub %s -> error", sub.K)
+			x.w.Log.Note("sub %s -> %v", sub.K, err)
 			continue
 		}
 		if opid != "" {
@@ -1117,7 +1119,7 @@ func (x *run) stepRestart(rs *repState, s *sim.Step) error {
 		} else {
 			// a clean exit commits nothing by itself; staged operations are lost as well
 			if err := r.CloseClean(); err != nil {
-				x.w.Log.Add("close error %v", err)
+				x.w.Log.Note("close error %v", err)
 			}
 			rs.staged = map[string]bool{}
 		}
@@ -1139,7 +1141,7 @@ func (x *run) stepRestart(rs *repState, s *sim.Step) error {
 func (x *run) stepDelClocks(rs *repState, s *sim.Step) error {
 	r := rs.r
 	if err := r.CloseClean(); err != nil {
-		x.w.Log.Add("close error %v", err)
+		x.w.Log.Note("close error %v", err)
 	}
 	rs.staged = map[string]bool{}
 	rs.alive = false
